@@ -268,7 +268,7 @@ def sfb1d(lo, hi, g0, g1, mode='zero', dim=-1):
         y = F.conv_transpose2d(lo, g0, stride=s, groups=C) + \
             F.conv_transpose2d(hi, g1, stride=s, groups=C)
         y = fold(y, N, d)
-        y = roll(y, 1-L//2, dim=dim)
+        y = roll(y, 1-(L+1)//2, dim=dim)
     else:
         if mode == 'zero' or mode == 'symmetric' or mode == 'reflect' or \
                 mode == 'periodic':
